@@ -441,7 +441,25 @@ def generate(cfg="A", builddir=None, outpath=None):
                 f.write(_c.stub("ScpiVerif.Gen.RegsC", failed["regs_c"]))
         except Exception:
             pass
+    # C -> Lean translation of the response framing functions and of SCPI_Input of parser.c (Gen/ResultC.lean, Gen/InputC.lean;
+    # translate/c2lean_parser.py), same treatment: one section each, a refusal is recorded and never disturbs the others
+    parser_c = {}
+    for _sec in ("result_c", "input_c"):
+        try:
+            import c2lean_parser
+            parser_c[_sec] = c2lean_parser.generate(_sec, os.path.dirname(outpath))
+            if parser_c[_sec]["failed"]:
+                failed[_sec] = "; ".join("%s: %s" % kv for kv in sorted(parser_c[_sec]["failed"].items()))[:400]
+        except Exception as e:
+            failed[_sec] = ("c2lean_parser: %s: %s" % (type(e).__name__, e))[:400]
+            try:
+                import c2lean as _c, c2lean_parser as _p
+                with open(os.path.join(os.path.dirname(outpath), _p.SECTIONS[_sec]["file"]), "w") as f:
+                    f.write(_c.stub(_p.SECTIONS[_sec]["namespace"], failed[_sec]))
+            except Exception:
+                pass
     gens = {"fifo_c": fifo_c, "regs_c": regs_c, "heap_c": heap_c, "intfmt_c": intfmt_c, "lexer_c": lexer_c}
+    gens.update(parser_c)
     rows = {"errclass": len(errclass), "errdesc": len(errdesc), "units": len(unit_rows), "special": len(special)}
     for _n, _g in gens.items():
         rows[_n + "_functions"] = len(_g.get("functions", []))
